@@ -384,6 +384,22 @@ def _clone(node):
     return node
 
 
+def _helper_expr_method(fn):
+    """like _helper_expr for a method: the receiver parameter is not a value parameter"""
+    import copy as _copy
+    shadow = _clone(fn)
+    shadow.args.args = shadow.args.args[1:]
+    shadow.decorator_list = []
+    return _helper_expr(shadow)
+
+
+def _bind_method(fn, call):
+    import copy as _copy
+    shadow = _clone(fn)
+    shadow.args.args = shadow.args.args[1:]
+    return _bind(shadow, call)
+
+
 def _bind(fn, call):
     a = fn.args
     names = [x.arg for x in a.args]
@@ -415,6 +431,7 @@ def inline_helpers(tree: ast.Module) -> int:
     their call sites inside the same module (the definition stays).  Extracting a decision or a small builder into a
     helper - or inlining one - therefore leaves the analysed program unchanged."""
     cands = {}
+    method_cands = {}
 
     def collect(scope_node, owner):
         for s in getattr(scope_node, "body", []):
@@ -428,6 +445,13 @@ def inline_helpers(tree: ast.Module) -> int:
             elif isinstance(s, ast.ClassDef):
                 for m in s.body:
                     if isinstance(m, (ast.FunctionDef, ast.AsyncFunctionDef)):
+                        if isinstance(m, ast.FunctionDef) and m.name.startswith("_") and not m.name.startswith("__") and m.args.args \
+                                and m.args.args[0].arg in ("self", "cls") and not any(
+                                    isinstance(d, ast.Name) and d.id in ("property", "staticmethod") or isinstance(d, ast.Attribute) for d in m.decorator_list):
+                            try:
+                                method_cands[(id(s), m.name)] = (m,) + _helper_expr_method(m)
+                            except _NotExpr:
+                                pass
                         collect(m, m)
             elif isinstance(s, (ast.If, ast.Try, ast.With, ast.For, ast.While)):
                 for fld in ("body", "orelse", "finalbody"):
@@ -438,9 +462,15 @@ def inline_helpers(tree: ast.Module) -> int:
                     collect(h, owner)
 
     collect(tree, None)
-    if not cands:
+    if not cands and not method_cands:
         return 0
     count = 0
+    class_of = {}
+    for c_ in ast.walk(tree):
+        if isinstance(c_, ast.ClassDef):
+            for m_ in c_.body:
+                if isinstance(m_, (ast.FunctionDef, ast.AsyncFunctionDef)):
+                    class_of[id(m_)] = c_
 
     def rewrite(scope_fn, owners):
         nonlocal count
@@ -459,6 +489,31 @@ def inline_helpers(tree: ast.Module) -> int:
             def visit_Call(self, node):
                 nonlocal count
                 self.generic_visit(node)
+                if isinstance(node.func, ast.Attribute) and isinstance(node.func.value, ast.Name) and node.func.value.id in ("self", "cls") and owners:
+                    cls_node = class_of.get(id(owners[0]))
+                    mh = method_cands.get((id(cls_node), node.func.attr)) if cls_node is not None else None
+                    if mh and mh[0] is not scope_fn and mh[0] is not owners[0]:
+                        fn, params, expr = mh
+                        bound = _bind_method(fn, node)
+                        if bound is not None:
+                            recv = node.func.value.id
+
+                            class SM(ast.NodeTransformer):
+                                def visit_Name(self, n):
+                                    if isinstance(n.ctx, ast.Load) and n.id in bound:
+                                        return _clone(bound[n.id])
+                                    if n.id == fn.args.args[0].arg:
+                                        return ast.copy_location(ast.Name(id=recv, ctx=n.ctx), n)
+                                    return n
+
+                            new = SM().visit(_clone(expr))
+                            ast.copy_location(new, node)
+                            for x in ast.walk(new):
+                                if not hasattr(x, "lineno"):
+                                    ast.copy_location(x, node)
+                            count += 1
+                            return new
+                    return node
                 if not isinstance(node.func, ast.Name):
                     return node
                 hit = None
